@@ -17,6 +17,7 @@ import (
 
 	"github.com/tendermint/tendermint/light"
 	"github.com/tendermint/tendermint/rpc/core"
+	ctypes "github.com/tendermint/tendermint/rpc/core/types"
 	rpcclient "github.com/tendermint/tendermint/rpc/client"
 	"github.com/tendermint/tendermint/types"
 )
@@ -168,6 +169,69 @@ func (ch *c20Chain) runCase(run int, src string, kase *c20Case) map[string]inter
 	ev["have_after"] = ch.have(lc)
 	ev["trusted"] = ch.trusted(lc)
 	return ev
+}
+
+// one TxSearch(prove = true) over a height range, asked THROUGH the verifying client (a pass-through):
+// every returned ResultTx is projected together with the outcome of the real
+// TxProof.Validate against the DataHash of the block at the result's OWN height
+func (ch *c20Chain) runSearch(run int, src string, a c20Arg) map[string]interface{} {
+	ev := map[string]interface{}{"ev": "Search", "run": run, "src": src, "kind": "TxSearch", "a": a}
+	be := &c20Backend{ch: ch, kase: &c20Case{Kind: "TxSearch", A: a}}
+	cl := NewClient(be, ch.newLC(nil, false), KeyPathFn(DefaultMerkleKeyPathFn()))
+	query := fmt.Sprintf("tx.height >= %d AND tx.height <= %d", a.Lo, a.Hi)
+	var res *ctypes.ResultTxSearch
+	var err error
+	func() {
+		defer func() {
+			if r := recover(); r != nil {
+				err = fmt.Errorf("panic: %v", r)
+			}
+		}()
+		res, err = cl.TxSearch(context.Background(), query, true, c20Ptr(a.Page), c20Ptr(a.Per), a.Ord)
+	}()
+	txs := []interface{}{}
+	ev["ok"] = err == nil
+	ev["err"] = ""
+	ev["total"] = int64(0)
+	if err != nil {
+		ev["err"] = err.Error()
+	} else {
+		ev["total"] = int64(res.TotalCount)
+		for _, r := range res.Txs {
+			valid := false
+			if r.Height >= 1 && r.Height <= ch.tip {
+				valid = r.Proof.Validate(ch.blockStore.LoadBlockMeta(r.Height).Header.DataHash) == nil
+			}
+			txs = append(txs, map[string]interface{}{"h": r.Height, "i": int64(r.Index), "tx": c20TxName(r.Tx), "hash": ch.nm.hn(r.Hash),
+				"proof": ch.nm.absTxProof(r.Proof), "validate_ok": valid})
+		}
+	}
+	ev["txs"] = txs
+	return ev
+}
+
+func (ch *c20Chain) randSearch(rng *rand.Rand) c20Arg {
+	a := c20Arg{LC: "warm", Ord: []string{"asc", "desc", "desc", ""}[rng.Intn(4)]}
+	a.Lo = 1 + rng.Int63n(ch.tip)
+	a.Hi = a.Lo + rng.Int63n(ch.tip-a.Lo+1)
+	if rng.Intn(2) == 0 {
+		a.Lo, a.Hi = 1, ch.tip
+	}
+	a.Per = []int64{0, 1, 2, 3, 5}[rng.Intn(5)]
+	n := int64(0)
+	for h := a.Lo; h <= a.Hi; h++ {
+		n += int64(len(ch.abs.Blocks[h-1].Txs))
+	}
+	per := a.Per
+	if per == 0 {
+		per = 30
+	}
+	pages := int64(1)
+	if n > 0 {
+		pages = (n-1)/per + 1
+	}
+	a.Page = rng.Int63n(pages + 1) // 0 = not given
+	return a
 }
 
 // the inclusion proofs rpc/core serves (Tx and TxSearch) for every transaction of the chain
@@ -442,6 +506,10 @@ func TestVerifC20(t *testing.T) {
 				run++
 				w.emit(map[string]interface{}{"ev": "Reset", "run": run, "desc": desc, "chain": ch.abs})
 			}
+			if kase.Kind == "TxSearch" {
+				w.emit(ch.runSearch(run, "tlc", kase.A))
+				continue
+			}
 			w.emit(ch.runCase(run, "tlc", kase))
 		}
 	}
@@ -465,6 +533,10 @@ func TestVerifC20(t *testing.T) {
 		w.emit(map[string]interface{}{"ev": "Reset", "run": run, "desc": desc, "chain": ch.abs})
 		ch.served(run, w)
 		for j := 0; j < perChain; j++ {
+			if j%6 == 5 {
+				w.emit(ch.runSearch(run, "rand", ch.randSearch(rng)))
+				continue
+			}
 			if kase, ok := ch.randCase(rng); ok {
 				w.emit(ch.runCase(run, "rand", kase))
 			}
